@@ -23,6 +23,15 @@ Theorem C19_format_preserves_parsed_tree : forall ts e, parse ts = ROk (PE e) []
   parse (pr e) = ROk (PE (dedup e)) [] /\ strip (dedup e) = strip e.
 Proof. intros ts e H. destruct (parsed_roundtrip_closed ts e H) as (A & _ & B). auto. Qed.
 
+(* the formatter's output is again in the parser's image: it parses without error to a well-formed tree with the same
+   structure, operands at readable positions, needing no further parentheses - so the statement applies to it again *)
+Theorem C19_format_output_in_parser_image : forall ts e, parse ts = ROk (PE e) [] ->
+  exists e', parse (pr e) = ROk (PE e') [] /\ strip e' = strip e /\ validb e' = true /\ posokb e' = true /\ noaddw e' = true.
+Proof.
+  intros ts e H. destruct (C19_format_preserves_parsed_tree ts e H) as (A & B).
+  exists (dedup e). split; [exact A|split; [exact B|exact (C19_parser_image _ _ A)]].
+Qed.
+
 (* a tree that already carries the parentheses the grammar needs, and no doubled ones, is re-read as itself *)
 Theorem C19_print_parse_roundtrip_parsed_partial : forall e,
   validb e = true -> lamokb e = true -> noaddb e = true -> parse (pr e) = ROk (PE e) [].
@@ -68,6 +77,7 @@ Proof. eexists. vm_compute. repeat split; try reflexivity. discriminate. Qed.
 Print Assumptions C19_mayCombine_covers_prefix_operators.
 Print Assumptions C19_parser_image.
 Print Assumptions C19_format_preserves_parsed_tree.
+Print Assumptions C19_format_output_in_parser_image.
 Print Assumptions C19_print_parse_roundtrip_parsed_partial.
 Print Assumptions C19_needs_parser_shape_refuted.
 Print Assumptions C19_structure_kept.
